@@ -134,9 +134,9 @@ Example c01_nonvacuous :
   x_inv ctx_abs ex_ctx /\ x_qui ctx_abs ex_ctx /\ x_inv ctx_abs_tx ex_ctx /\
   let q := [("x", []); ("out", []); ("fs", [VS "f"])]%string in
   run_attempts ex_ctx
-    [mkAttempt [] ex_ops [] ["fs"%string];          (* PreCommit of the map fails: abort *)
-     mkAttempt [] ex_ops [None; None; Some 1%nat] []; (* refusal inside the write to the map *)
-     mkAttempt [] ex_ops [] []] q                    (* retry commits *)
+    [mkAttempt [] ex_ops [] ["fs"%string] [];          (* PreCommit of the map fails: abort *)
+     mkAttempt [] ex_ops [None; None; Some 1%nat] [] []; (* refusal inside the write to the map *)
+     mkAttempt [] ex_ops [] [] []] q                    (* retry commits *)
   = [(1, [VT [VI 10; VD; VD; VD; VS "new"]; VR [(VS "a", VI 1); (VS "b", VI 2)]; VT []; VT [VT [VS "old"]]]);
      (1, [VT [VI 10; VD]; VR [(VS "a", VI 1); (VS "b", VI 2)]; VT []; VT [VT [VS "old"]]]);
      (0, [VT [VI 10; VD; VD; VD; VS "new"]; VR [(VS "a", VI 1); (VS "b", VI 10)]; VT [VI 5]; VT [VT [VS "new"]]])]%string.
